@@ -495,6 +495,11 @@ def gen_case(rng, small=False, filt=None, admissible_only=False):
     name = filt or rng.choice(ALL_FILTERS)
     events = gen_events(rng, small)
     bad = (not admissible_only) and rng.random() < 0.12
+    return {"filter": name, "args": gen_args(rng, name, events, bad), "events": events}
+
+
+def gen_args(rng, name, events, bad=False):
+    """arguments for filter `name` on these events (limits taken from the particles' quantities half of the time)"""
     args = []
     if name in WINDOW_LIM or name in ("spacetime_cut", "multiplicity_cut"):
         if name == "spacetime_cut":
@@ -556,7 +561,7 @@ def gen_case(rng, small=False, filt=None, admissible_only=False):
             arg = rng.choice([A_num(0), A_num(-1.5), {"t": "float", "v": "nan"}, A_none(), {"t": "str", "v": "1"},
                               {"t": "float", "v": "inf"}, arg])
         args.append(arg)
-    return {"filter": name, "args": args, "events": events}
+    return args
 
 
 # ----------------------------------------------------------------------------------------- model side
